@@ -3415,6 +3415,12 @@ class RoConstr:
 
         self.support = sup_model.do_math(primal=False, obj=False)
 
+        top = getattr(self.dec_model, 'top', None)
+        if top is not None:
+            # the constraint may already belong to a formulated model
+            top.pupdate = True
+            top.dupdate = True
+
         return self
 
     def le_to_rc(self, support=None):
@@ -5007,6 +5013,8 @@ class DecLinConstr(LinConstr):
                 raise ValueError('Models mismatch.')
 
         self.ambset = ambset
+        self.model.top.pupdate = True
+        self.model.top.dupdate = True
 
         return self
 
@@ -5092,13 +5100,15 @@ class DecRoConstr(RoConstr):
                 if constr.model is not self.rand_model:
                     raise ValueError('Models mismatch.')
             self.ambset = suppset
-            return self
         else:
             if self.dec_model.top is not ambset.model:
                 raise ValueError('Models mismatch.')
 
             self.ambset = ambset
-            return self
+
+        self.dec_model.top.pupdate = True
+        self.dec_model.top.dupdate = True
+        return self
 
 
 class DecLMIConstr(LMIConstr):
